@@ -1,10 +1,261 @@
-// Package c20 holds the runtime monitors for property C20 (see DESIGN.md section 4).
+// Package c20 monitors the pack tool: a packed executable, when started,
+// finds its embedded archive, recovers every packed file and runs the entry
+// file (DESIGN.md section 4, C20).
 package c20
 
-import "verif/harness/core"
+import (
+	"bytes"
+	"fmt"
+	"os"
+	"path/filepath"
+	"sync"
+
+	"github.com/krotik/ecal/cli/tool"
+	"github.com/krotik/ecal/verifhook"
+
+	"verif/harness/core"
+)
 
 func init() { core.Register("C20", Run) }
 
+// filesSeen is what the hook point pack.files announced during the current run.
+var (
+	filesMu   sync.Mutex
+	filesSeen []map[string]string
+)
+
+func hook(point string, args []interface{}) {
+	if point != "pack.files" || len(args) == 0 {
+		return
+	}
+	m, ok := args[0].(map[string]string)
+	if !ok {
+		return
+	}
+	cp := make(map[string]string, len(m))
+	for k, v := range m {
+		cp[k] = v
+	}
+	filesMu.Lock()
+	filesSeen = append(filesSeen, cp)
+	filesMu.Unlock()
+}
+
+func takeFiles() []map[string]string {
+	filesMu.Lock()
+	defer filesMu.Unlock()
+	r := filesSeen
+	filesSeen = nil
+	return r
+}
+
 // Run is the check.
 func Run(c *core.Ctx) {
+	c.Note("rule", fmt.Sprintf("in-process: for a synthetic interpreter binary of length L and filler F, CLIPacker.Pack() then RunPackedBinary() on the packed file with the package's args/exit/stderr indirections set by VerifSetOS; "+
+		"L = EVERY value in [0,%d] (two periods of both scan geometries: %d-byte blocks, %d-byte overlap after a block holding '#') plus k*%d+d and k*%d+d for k=3..40, d in [-40,40]; "+
+		"F = one stream per filler family: zeros, all '#', random without '#', '#' at strides 61/4000/4096, a single '#' at distance {1,2,17,28,29,2048,4096} from the end of block 0/1, "+
+		"a partial marker (%q or %q) ending g bytes before the marker for g in {0,1,2,11,12,16,17,28}, back-to-back partial markers at 3 phases, sparse partial markers on a '#'-free random background, "+
+		"seeded random with '#' density 1/64 and 1/4096; fillers never contain the complete marker line; "+
+		"project tree per case drawn from {none (0 extra files), flat, nested3 (+empty directories), emptyfile, binary (all byte values, marker text inside), entry-inside, entry-twin (tree files named like the entry), big (9-30 KB incompressible)} x 3 content variants; "+
+		"the entry program is written per case: it imports a packed library file (where the tree has one) and its value (= the exit code) is case-specific and computed from the imported value. "+
+		"thorough adds real processes: the real CLI is built from /repo/cli, variant interpreters = binary + pad bytes, packed with `<variant> pack -dir -target <entry>`, the packed file is executed with stdin closed. "+
+		"non-trivial/distinct = distinct (stream, marker offset L, tree kind) on which the packed file was produced and started; the L sweep over [0,%d] is exhaustive for the deterministic filler families",
+		sweepMax, blockLen, overlapLen, blockLen, unitLen, partialA, partialB, sweepMax))
+	c.Note("exhaustive", "true")
+
+	verifhook.Set(hook)
+	defer verifhook.Set(nil)
+
+	work, err := filepath.Abs(filepath.Join(c.OutDir, fmt.Sprintf("c20-b%d-%d", c.Batch, os.Getpid())))
+	if err != nil {
+		panic(err)
+	}
+	if err := os.MkdirAll(work, 0o755); err != nil {
+		panic(err)
+	}
+	defer os.RemoveAll(work)
+
+	fo := &forest{work: work, seed: c.Seed, trees: map[string]*tree{}}
+	part := os.Getenv("VH_C20_PART") // "", "inproc" or "exec" (driver variants; empty = both, e.g. replay)
+	for _, f := range families(c) {
+		if part == "exec" {
+			break
+		}
+		ls := f.ls
+		if c.Quick() {
+			switch f.quick {
+			case 0:
+				continue
+			case 1:
+				ls = ls[:f.nSweep]
+			}
+		}
+		for idx, L := range ls {
+			if !c.Take(f.stream, idx) {
+				continue
+			}
+			inprocCase(c, work, fo, f, idx, L)
+		}
+	}
+	if !c.Quick() && part != "inproc" {
+		realExec(c, work, fo)
+	}
+}
+
+type inprocResult struct {
+	packErr  error
+	exits    []int
+	stderr   string
+	files    []map[string]string
+	panicked bool
+	panicKey string
+	panicMsg string
+	target   []byte
+}
+
+func inprocCase(c *core.Ctx, work string, fo *forest, f family, idx, L int) {
+	r := c.Rng(f.stream, idx)
+	filler, changed := sanitize(f.gen(r, L))
+	if changed > 0 {
+		c.Event("filler.sanitized", 1)
+	}
+	t := fo.pick(r)
+	kind := t.kind
+	maxCode := 250
+	if r.Chance(1, 8) {
+		maxCode = 100000
+	}
+	prog := t.mkProgram(r, fmt.Sprintf("%s:%d", f.stream, idx), 0, maxCode, "")
+	dir, entry, err := t.place(fo.root(t), prog)
+	if err != nil {
+		c.Inconclusive("cannot write the project tree: "+err.Error(), f.stream, idx, nil)
+		return
+	}
+	src := filepath.Join(work, "source.bin")
+	tgt := filepath.Join(work, "packed.bin")
+	if err := os.WriteFile(src, filler, 0o755); err != nil {
+		c.Inconclusive("cannot write the source binary: "+err.Error(), f.stream, idx, nil)
+		return
+	}
+	os.Remove(tgt)
+	detail := func(extra map[string]interface{}) map[string]interface{} {
+		d := map[string]interface{}{"family": f.stream, "L": L, "tree": kind, "entry": prog.src, "expected_code": prog.code,
+			"filler_tail": fmt.Sprintf("%q", tail(filler, 48))}
+		for k, v := range extra {
+			d[k] = v
+		}
+		return d
+	}
+	c.Begin(0, f.stream, idx, fmt.Sprintf("L=%d tree=%s", L, kind))
+	defer c.End(0)
+
+	// 1. pack with the real packer
+	var res inprocResult
+	var logOut bytes.Buffer
+	p := &tool.CLIPacker{EntryFile: entry, Dir: &dir, SourceBinary: &src, TargetBinary: &tgt, LogOut: &logOut}
+	key, msg, panicked := core.Guard(func() { res.packErr = p.Pack() })
+	if panicked {
+		c.Violation(key, "Pack() panicked: "+firstLine(msg), f.stream, idx, detail(map[string]interface{}{"panic": msg}))
+		return
+	}
+	if res.packErr != nil {
+		c.Violation("pack:error", "Pack() failed on a readable tree: "+res.packErr.Error(), f.stream, idx, detail(nil))
+		return
+	}
+	res.target, err = os.ReadFile(tgt)
+	if err != nil {
+		c.Violation("pack:no-target", "Pack() returned no error but the target cannot be read: "+err.Error(), f.stream, idx, detail(nil))
+		return
+	}
+	c.Event("pack.ok", 1)
+	geo := locate(res.target, L)
+	c.Event("marker-at."+geo.String(), 1)
+	if len(res.target) < L+len(refMarker) || !bytes.Equal(res.target[:L], filler) || string(res.target[L:L+len(refMarker)]) != refMarker {
+		c.Violation("pack:layout", "the packed file is not <source binary><marker line><archive>", f.stream, idx,
+			detail(map[string]interface{}{"target_len": len(res.target)}))
+		return
+	}
+
+	// 2. start it: RunPackedBinary with the os indirections pointing at the packed file
+	var stderr bytes.Buffer
+	takeFiles()
+	restore := tool.VerifSetOS([]string{tgt}, func(code int) { res.exits = append(res.exits, code) }, &stderr)
+	res.panicKey, res.panicMsg, res.panicked = core.Guard(tool.RunPackedBinary)
+	restore()
+	res.files = takeFiles()
+	res.stderr = stderr.String()
+	c.NontrivialKey(fmt.Sprintf("%s|%d|%s", f.stream, L, kind))
+	if idx%4001 == 17 {
+		c.Sample("inproc:"+f.stream, detail(map[string]interface{}{"exit_calls": res.exits, "marker_at": geo.String(), "files": len(t.files) + 1}))
+	}
+
+	// 3. oracles
+	if res.panicked {
+		c.Event("run.panic", 1)
+		key := geo.panicKey(res.panicKey, res.panicMsg)
+		what := fmt.Sprintf("RunPackedBinary panicked on a file produced by Pack() (marker at %s+%d): %s", geo.where, geo.off, firstLine(res.panicMsg))
+		if viaErrorHandler(res.panicKey) && len(res.files) == 0 && bytes.Contains(res.target[L+len(refMarker):], []byte(refMarker)) {
+			// the archive holds the marker text again (a packed file contains it): the
+			// real marker was passed over and a later occurrence was taken
+			key = geo.missKey(L)
+			what = fmt.Sprintf("the packed file did not find its archive: the marker at offset %d (%s read, offset %d; '#' before it in that block: %v) was passed over, a later occurrence of the marker text inside the archive was taken and the error handler was called with %q",
+				L, geo.where, geo.off, geo.hash, firstLine(res.panicMsg))
+		}
+		c.Violation(key, what, f.stream, idx, detail(map[string]interface{}{"panic": res.panicMsg, "marker_at": geo.String(), "marker_off": geo.off}))
+		return
+	}
+	if len(res.exits) == 0 {
+		c.Event("run.fellthrough", 1)
+		what := fmt.Sprintf("the packed file did not find its archive: RunPackedBinary returned without running the entry (marker at offset %d = %s read, offset %d; '#' before it in that block: %v)",
+			L, geo.where, geo.off, geo.hash)
+		if len(res.files) > 0 {
+			what = "the archive was loaded but the exit callback was never reached"
+			c.Violation("run:no-exit-after-load", what, f.stream, idx, detail(map[string]interface{}{"stderr": res.stderr}))
+			return
+		}
+		c.Violation(geo.missKey(L), what, f.stream, idx, detail(map[string]interface{}{"marker_at": geo.String(), "marker_off": geo.off, "stderr": res.stderr}))
+		return
+	}
+	c.Event("run.exit-reached", 1)
+	if len(res.exits) > 1 {
+		c.Violation("run:exit-twice", fmt.Sprintf("exit callback reached %d times: %v", len(res.exits), res.exits), f.stream, idx, detail(nil))
+		return
+	}
+	if res.stderr != "" {
+		c.Violation("run:entry-error", "the entry program failed: "+firstLine(res.stderr), f.stream, idx, detail(map[string]interface{}{"stderr": res.stderr}))
+		return
+	}
+	if res.exits[0] != prog.code {
+		c.Violation("run:wrong-exit-code", fmt.Sprintf("exit code %d, the entry returns %d", res.exits[0], prog.code), f.stream, idx, detail(nil))
+		return
+	}
+	if len(res.files) == 0 {
+		c.Inconclusive("hook point pack.files was not reached although the entry ran", f.stream, idx, nil)
+		return
+	}
+	c.Event("hook.pack.files", int64(len(res.files)))
+	if cat, text := compareFiles(t.expected(prog), res.files[len(res.files)-1]); cat != "" {
+		c.Violation(cat, text, f.stream, idx, detail(nil))
+		return
+	}
+	c.Event("files.compared", int64(len(t.files)+1))
+	if t.lib != "" {
+		c.Event("import.used-in-exit-code", 1)
+	}
+}
+
+func tail(b []byte, n int) []byte {
+	if len(b) > n {
+		return b[len(b)-n:]
+	}
+	return b
+}
+
+func firstLine(s string) string {
+	for i := 0; i < len(s); i++ {
+		if s[i] == '\n' {
+			return s[:i]
+		}
+	}
+	return s
 }
